@@ -1,6 +1,6 @@
 (** C13 -- the second write without the per-field hypothesis [idem_ok]: a real field is
     re-written with the same text (RealIdem.v) whenever it is [stable_ok]:
-    at most 14 decimals are printed, the printed decimal exponent lies in [-300, 300], and
+    at most 14 decimals are printed, the printed decimal exponent lies in [-307, 307], and
     the value read back is printed with the same number of decimals (it always is when the
     text fits at the precision of the table; the one exception, a lowered precision that
     rounds into a shorter exponent, is a recorded defect of the code).  [stableb] collects
@@ -51,7 +51,7 @@ Qed.
 
 (** THE field theorem: the re-read double is formatted, with q decimals, as the original *)
 Theorem real_text_stable f ng m e q : ft f = Te -> 0 < m -> used_prec f (XReal ng m e) = Some q -> 0 <= q <= 14 ->
-  -300 <= snd (sci q (fst (num_den m e)) (snd (num_den m e))) <= 300 ->
+  -307 <= snd (sci q (fst (num_den m e)) (snd (num_den m e))) <= 307 ->
   exists m' e', canon_field f (MNum (PDy ng m e)) = MNum (PDy ng m' e') /\ 0 < m' /\
                 forall w, fmt_e w q ng m' e' = fmt_e w q ng m e.
 Proof.
@@ -75,7 +75,7 @@ Definition stable_ok (f : fspec) (v : mval) : bool :=
       | Some q, MNum (PDy ng' m' e') =>
           (0 <=? m) && (0 <=? q) && (q <=? 14) &&
           (if m =? 0 then true
-           else let k := snd (sci q (fst (num_den m e)) (snd (num_den m e))) in (-300 <=? k) && (k <=? 300)) &&
+           else let k := snd (sci q (fst (num_den m e)) (snd (num_den m e))) in (-307 <=? k) && (k <=? 307)) &&
           match used_prec f (XReal ng' m' e') with Some q' => q' =? q | None => false end
       | _, _ => false
       end
@@ -120,7 +120,7 @@ Qed.
 
 (** a value written with the precision of the table is read back as a value written with that precision *)
 Theorem full_precision_is_kept f ng m e : ft f = Te -> 0 < m -> used_prec f (XReal ng m e) = Some (prec f) -> 0 <= prec f <= 14 ->
-  -300 <= snd (sci (prec f) (fst (num_den m e)) (snd (num_den m e))) <= 300 ->
+  -307 <= snd (sci (prec f) (fst (num_den m e)) (snd (num_den m e))) <= 307 ->
   exists m' e', canon_field f (MNum (PDy ng m e)) = MNum (PDy ng m' e') /\ used_prec f (XReal ng m' e') = Some (prec f).
 Proof.
   intros T Hm U Hq Hk. destruct (real_text_stable f ng m e (prec f) T Hm U Hq Hk) as [m' [e' [C [_ E]]]].
